@@ -325,7 +325,7 @@ Theorem validate_valid h p f :
   PInv W p -> pi_nframes p = h_frames h -> hdr_ok h -> validate h p = Ok f -> ValidW W f.
 Proof.
   intros HP Hnf Hh Hv. pose proof (validate_parents_ok _ _ _ Hv) as Hpar.
-  destruct HP as [P1 P2 P3 P4 P5]. unfold validate in Hv.
+  destruct HP as [P1 P2 P3 P4 P5]. unfold validate in Hv; rewrite ?frev_eq in Hv.
   destruct (compute_parents (rev (pi_layers_rev p))) as [ps| |] eqn:Hc; cbn [rbind] in Hv; try discriminate.
   destruct (validate_tilesets (pi_palette p) (h_fmt h) (pi_tilesets p)) as [tss| |] eqn:Ht; cbn [rbind] in Hv; try discriminate.
   destruct (validate_layers (rev (pi_layers_rev p)) tss) as [u| |] eqn:Hl; cbn [rbind] in Hv; try discriminate.
